@@ -540,6 +540,7 @@ func checkProperty(cfg *RunCfg, prog *Program, id string, start time.Time) (int,
 				if kf := matchKnown(&known, id, o.Name); kf != "" {
 					knownHit = append(knownHit, kf)
 					fmt.Printf("KNOWN-FINDING: property=%s %s\n", id, kf)
+					nObl-- // an open obligation of a recorded defect is reported, not counted as part of the proof
 					continue
 				}
 				isNew := haveBase && base.Properties[id] != nil
